@@ -216,6 +216,7 @@ impl Scenario for Restart {
                 let is_dens = spec.kind.is_dens();
                 let mut a = make_unode(spec);
                 apply(&mut a, pre, ctx, is_dens, true);
+                decoy_unode(spec);
                 if let Some((low, ovf, _)) = a.set_extras() {
                     if ovf > 0 {
                         ctx.count("probe:register-overflow-before-restart");
